@@ -17,12 +17,19 @@ E: the REAL find_distributed_partition -> verify_distributed_partition ->
 M: every exported instance is additionally model-checked with DistExec (all
    schedules): a partition on which the executor can deadlock, crash or
    misdeliver is not a well-formed partition, whatever the predicates say.
+   The specification's own partitioner (DistComm!AbsParts: dependency levels
+   -> batches -> parts) is put through the same two judges for every
+   communication structure of the exhaustive bound (a design-level result;
+   failure = exit 2), and its parts-per-rank are compared with the real
+   partitioner's as a diagnostic only (the algorithm is documented as
+   non-binding).
 """
 from __future__ import annotations
 
 import copy
 import os
 from concurrent.futures import ThreadPoolExecutor
+import time
 from typing import Any
 
 from ptverif import distcheck as dc
@@ -138,12 +145,15 @@ def parse_clauses(detail: str | None) -> list[str]:
 
 def main(tier: str, only: list[dict] | None = None) -> int:
     run = Run(PROP, tier, "model_checking")
+    t0 = time.time()
     if only is None:
         progs, gstats = programs(tier)
     else:
         progs, gstats = only, []
+    t1 = time.time()
     by_id = {p["id"]: p for p in progs}
     results = dc.process_all(progs, {"seed": seed(), "execute": False})
+    t2 = time.time()
     insts = []
     for r in results:
         if r.get("hang"):
@@ -188,10 +198,33 @@ def main(tier: str, only: list[dict] | None = None) -> int:
                               sig=sig_of(by_id[r["id"]], "proc_differs", "proc"))
             continue
         agree += 1
+    # the specification's own partitioner on the same communication structures
+    ainsts = []
+    for p in progs:
+        g = p.get("gen") or {}
+        if g.get("abs") and not g.get("faults") and p["id"].startswith("struct/"):
+            ai = dp.abs_instance(dict(g, n=p["nranks"]), p["id"] + "%abs")
+            if ai is not None:
+                ainsts.append(ai)
     with ThreadPoolExecutor(max_workers=2) as ex:
-        f_pv = ex.submit(dc.validate_partitions, insts + pinsts)
-        f_mc = ex.submit(dc.model_check, insts)
+        f_pv = ex.submit(dc.validate_partitions, insts + pinsts + ainsts)
+        f_mc = ex.submit(dc.model_check, insts + ainsts)
         pv, mc = f_pv.result(), f_mc.result()
+    run.coverage["phase_wall_s"] = {"generate": round(t1 - t0, 1), "real_code": round(t2 - t1, 1),
+                                    "processes_and_tlc": round(time.time() - t2, 1)}
+    same_parts = 0
+    for ai in ainsts:
+        if pv.verdicts[ai["id"]] != "ok" or mc["clauses"][ai["id"]] != {"ok"}:
+            raise MachineryError(
+                f"{ai['id']}: the specification's own partitioner (DistComm!AbsParts) fails "
+                f"its own contract / executor model: {pv.detail.get(ai['id'])} "
+                f"{sorted(mc['clauses'][ai['id']])}")
+        real = thread_by_id.get(ai["id"][:-4])
+        if real is not None and [len(rk["parts"]) for rk in real["ranks"]] == \
+                [len(rk["parts"]) for rk in ai["ranks"]]:
+            same_parts += 1
+    for ai in ainsts:
+        mc["clauses"].pop(ai["id"], None)
     nbad = 0
     rounds: dict[str, int] = {}
     for inst in insts + pinsts:
@@ -232,6 +265,8 @@ def main(tier: str, only: list[dict] | None = None) -> int:
         "instances_with_contract_violations": nbad,
         "rounds_histogram": rounds, "tag_kinds": kinds,
         "distexec_states": mc["nstates"], "generator": gstats,
+        "abstract_partitions_of_the_spec_checked": len(ainsts),
+        "real_partition_has_same_parts_per_rank_as_abstract": same_parts,
         "tlc_wall_s": round(pv.wall + mc["wall"], 1),
     })
     for p in progs[:1] + progs[len(progs) // 2:len(progs) // 2 + 1]:
